@@ -72,9 +72,11 @@ def execute(n: int, pat: int, dev_id: int, inst: int):
     m = (n * 7 + 3) % 256
     reply_frame = al.payload("c02/r", m, (pat + 1) % 5)
     seen = []
+    tx_times = []
 
     def on_data(conn, data, i):
         seen.append(data)
+        tx_times.append(conn.net.loop.time())
         reply = rc.v2_build(reply_frame, dev_id, timestamp=bytes([1, 2, 3, 4, 5, 6, 7, 8]), magic=b"\x20\x80",
                             message_id=b"\x11\x22\x33\x44", tail=bytes(range(12)))
         conn.deliver(reply, 0.01)
@@ -83,7 +85,8 @@ def execute(n: int, pat: int, dev_id: int, inst: int):
     lan = LAN(IP, PORT, dev_id)
     try:
         out = w.run(lan.send(frame))
-        return frame, reply_frame, seen, out, epoch
+        from datetime import timedelta
+        return frame, reply_frame, seen, out, epoch + timedelta(seconds=tx_times[0] if tx_times else 0)
     finally:
         w.close()
 
